@@ -7,6 +7,7 @@ mod gen;
 mod guard;
 mod hint;
 mod rec;
+mod replay;
 
 #[global_allocator]
 static ALLOC: guard::Guard = guard::Guard;
@@ -51,6 +52,15 @@ fn main() {
             }
             println!("PROBES {}", s);
             println!("DONE cases={} events={}", r.case_no, r.events);
+        }
+        "replay-iter" => {
+            rec::silence_panics();
+            rec::IN_OP.store(true, std::sync::atomic::Ordering::Relaxed);
+            let (n, bad, out) = replay::replay_iter(&args[2]);
+            for o in out {
+                println!("MISMATCH {}", o);
+            }
+            println!("REPLAYED behaviours={} mismatches={}", n, bad);
         }
         "probes" => {
             for n in num_bigint::verif_probe::NAMES {
